@@ -26,9 +26,10 @@ class Raised(Exception):
 
 
 class Arr:
-    def __init__(self, shape, reduced=()):
+    def __init__(self, shape, reduced=(), dtype='float'):
         self.shape = list(shape)
         self.reduced = tuple(reduced)   # labels summed away so far (in order)
+        self.dtype = dtype
 
     @property
     def ndim(self):
@@ -53,8 +54,46 @@ def broadcast(a, b):
 
 
 class ShapeExec:
-    def __init__(self, env):
+    def __init__(self, env, impls=None, end=None, depth=0):
         self.env = dict(env)
+        self.impls = impls or {}     # 'numpy.sum' -> FunctionDef of the registered implementation (interpreted recursively)
+        self.end = end               # FunctionDef of _Transpose._end (interpreted, not modelled, when given)
+        self.depth = depth
+
+    def sub(self, fn, args, kwargs=None):
+        if self.depth > 6:
+            raise Unsupported('recursion too deep')
+        params = [a.arg for a in fn.args.args]
+        defaults = fn.args.defaults
+        env = {}
+        for k, p_ in enumerate(params):
+            if k < len(args):
+                env[p_] = args[k]
+            elif kwargs and p_ in kwargs:
+                env[p_] = kwargs[p_]
+            else:
+                d = k - (len(params) - len(defaults))
+                if d < 0:
+                    raise Unsupported(f'missing argument {p_}')
+                env[p_] = ShapeExec({}).ev(defaults[d])
+        if fn.args.vararg:
+            env[fn.args.vararg.arg] = list(args[len(params):])
+        return ShapeExec(env, self.impls, self.end, self.depth + 1).call(fn)
+
+    def transpose_end(self, a, axes, invert):
+        if self.end is None:
+            axes = [self.norm(x, a.ndim) for x in axes]
+            if len(set(axes)) != len(axes):
+                raise ShapeError('duplicate axes in a transpose')
+            if not invert:
+                return Arr([l for k, l in enumerate(a.shape) if k not in axes] + [a.shape[k] for k in axes], a.reduced, a.dtype)
+            n = a.ndim - len(axes)
+            out = [None] * a.ndim
+            for src_k, dst in zip(range(n, a.ndim), axes):
+                out[dst] = a.shape[src_k]
+            rest = iter(a.shape[:n])
+            return Arr([x if x is not None else next(rest) for x in out], a.reduced, a.dtype)
+        return self.sub(self.end, ['cls', a, list(axes), invert])
 
     def norm(self, axis, ndim):
         if not isinstance(axis, int):
@@ -71,15 +110,19 @@ class ShapeExec:
 
     def ev(self, e):
         if isinstance(e, ast.Name):
-            if e.id in ('numpy', '_Transpose', 'Array', 'builtins', 'util'):
+            if e.id in ('numpy', '_Transpose', 'Array', 'builtins', 'util', 'evaluable', 'numbers', 'functools', 'operator', 'numeric', 'itertools', '__implementations__'):
                 return e.id
             if e.id == '_':
                 return None
+            if e.id in ('bool', 'int', 'float', 'complex'):
+                return e.id
             if e.id not in self.env:
                 raise Unsupported(f'unbound name {e.id}')
             return self.env[e.id]
         if isinstance(e, ast.Constant):
             return e.value
+        if isinstance(e, ast.Starred):
+            raise Unsupported('starred expression')
         if isinstance(e, ast.UnaryOp):
             v = self.ev(e.operand)
             if isinstance(e.op, ast.USub):
@@ -91,7 +134,7 @@ class ShapeExec:
             return all(vals) if isinstance(e.op, ast.And) else any(vals)
         if isinstance(e, ast.IfExp):
             return self.ev(e.body) if self.ev(e.test) else self.ev(e.orelse)
-        if isinstance(e, ast.Compare) and len(e.ops) == 1:
+        if isinstance(e, ast.Compare) and len(e.ops) == 1 and not isinstance(e.ops[0], (ast.In, ast.NotIn, ast.Is, ast.IsNot)):
             a, b = self.ev(e.left), self.ev(e.comparators[0])
             op = e.ops[0]
             return {ast.Eq: a == b, ast.NotEq: a != b}.get(type(op)) if isinstance(op, (ast.Eq, ast.NotEq)) else \
@@ -100,10 +143,14 @@ class ShapeExec:
             if src(e) == 'numpy.newaxis':
                 return None
             v = self.ev(e.value)
+            if isinstance(v, str) and isinstance(e.value, (ast.Name, ast.Attribute)) and not isinstance(v, Arr) and src(e.value).split('.')[0] in ('numpy', 'evaluable', 'numbers', 'functools', 'operator', 'numeric', 'itertools', 'util', '__implementations__'):
+                return src(e)     # an opaque reference to a library object
             if isinstance(v, Arr) and e.attr == 'ndim':
                 return v.ndim
             if isinstance(v, Arr) and e.attr == 'shape':
                 return list(v.shape)
+            if isinstance(v, Arr) and e.attr == 'dtype':
+                return v.dtype
             raise Unsupported(f'attribute `{src(e)}`')
         if isinstance(e, (ast.Tuple, ast.List)):
             out = []
@@ -118,6 +165,12 @@ class ShapeExec:
             if isinstance(a, Arr) and isinstance(b, Arr) and isinstance(e.op, (ast.Mult, ast.Add, ast.Sub)):
                 return broadcast(a, b)
             if isinstance(a, int) and isinstance(b, int):
+                if isinstance(e.op, (ast.Mod, ast.FloorDiv)):
+                    if b == 0:
+                        raise ShapeError('division by zero')
+                    return a % b if isinstance(e.op, ast.Mod) else a // b
+                if type(e.op) not in (ast.Add, ast.Sub, ast.Mult):
+                    raise Unsupported(f'operation `{src(e)[:50]}`')
                 return {ast.Add: a + b, ast.Sub: a - b, ast.Mult: a * b}[type(e.op)]
             if isinstance(a, list) and isinstance(b, list) and isinstance(e.op, ast.Add):
                 return a + b
@@ -168,38 +221,113 @@ class ShapeExec:
                 return list(range(*args))
             if f == 'len':
                 return len(args[0])
+            if f in ('numpy.sum', 'numpy.any', 'numpy.prod') and f in self.impls and self.depth < 6:
+                kwargs = {k.arg: self.ev(k.value) for k in e.keywords}
+                return self.sub(self.impls[f], args, kwargs)
+            if f == '_contract' and '_contract' in self.impls:
+                return self.sub(self.impls['_contract'], args)
             if f in ('numpy.sum', '_contract', 'numpy.any'):
                 return self.reduce(args[0], args[1] if len(args) > 1 else list(range(args[0].ndim)))
-            if isinstance(e.func, ast.Attribute) and e.func.attr == 'sum':
+            if isinstance(e.func, ast.Attribute) and e.func.attr == 'astype' and isinstance(self.ev(e.func.value), Arr):
+                a = self.ev(e.func.value)
+                return Arr(a.shape, a.reduced, src(e.args[0]))
+            if isinstance(e.func, ast.Attribute) and e.func.attr in ('extend', 'append') and isinstance(e.func.value, ast.Name):
+                lst = self.ev(e.func.value)
+                (lst.extend if e.func.attr == 'extend' else lst.append)(self.ev(e.args[0]))
+                return None
+            if isinstance(e.func, ast.Attribute) and e.func.attr == 'sum' and f not in ('util.sum', 'numpy.sum', 'builtins.sum') and isinstance(self.ev(e.func.value), Arr):
                 return self.reduce(self.ev(e.func.value), args[0] if args else list(range(self.ev(e.func.value).ndim)))
+            if f == 'numpy.greater' and isinstance(args[0], Arr):
+                return Arr(args[0].shape, args[0].reduced, 'bool')
             if f == 'numpy.ravel':
                 a = args[0]
                 return Arr(['*'.join(a.shape) or '1'], a.reduced)
             if f == '_append_axes':
                 return Arr(args[0].shape + list(args[1]), args[0].reduced)
             if f in ('_Transpose.to_end', '_Transpose.from_end'):
-                a, axes = args[0], [self.norm(x, args[0].ndim) for x in args[1:]]
-                if len(set(axes)) != len(axes):
-                    raise ShapeError('duplicate axes in a transpose')
-                if f.endswith('to_end'):
-                    return Arr([l for k, l in enumerate(a.shape) if k not in axes] + [a.shape[k] for k in axes], a.reduced)
-                n = a.ndim - len(axes)
-                out = [None] * a.ndim
-                for src_k, dst in zip(range(n, a.ndim), axes):
-                    out[dst] = a.shape[src_k]
-                rest = iter(a.shape[:n])
-                return Arr([x if x is not None else next(rest) for x in out], a.reduced)
+                return self.transpose_end(args[0], args[1:], f.endswith('from_end'))
+            if f in ('_Transpose', 'cls') and len(args) == 2 and isinstance(args[0], Arr):
+                a, axes = args[0], [x for x in args[1]]
+                if sorted(axes) != list(range(a.ndim)):
+                    raise ShapeError(f'_Transpose constructed with axes {axes} for {a.ndim} axes')
+                return Arr([a.shape[k] for k in axes], a.reduced, a.dtype)
+            if f == 'numeric.normdim' and len(args) == 2:
+                return self.norm(args[1], args[0])
+            if f in ('tuple', 'list', 'sorted', 'reversed'):
+                v = list(args[0])
+                return sorted(v) if f == 'sorted' else v[::-1] if f == 'reversed' else v
+            if f == 'numpy.argsort':
+                return [int(k) for k in sorted(range(len(args[0])), key=args[0].__getitem__)]
+            if f == 'enumerate':
+                start = next((self.ev(k.value) for k in e.keywords if k.arg == 'start'), args[1] if len(args) > 1 else 0)
+                return [[start + k, v] for k, v in enumerate(args[0])]
+            if f in ('all', 'any'):
+                return (all if f == 'all' else any)(args[0])
+            if f == 'isinstance':
+                v, t = args[0], src(e.args[1])
+                if t in ('int', 'numbers.Integral'):
+                    return isinstance(v, int) and not isinstance(v, bool)
+                if t == 'Array':
+                    return isinstance(v, Arr)
+                raise Unsupported(f'isinstance(..., {t})')
+            if f == '_Wrapper' or f == '_Wrapper.broadcasted_arrays':
+                kw = {k.arg: k.value for k in e.keywords}
+                if 'shape' in kw:
+                    red = tuple(r for a in args[1:] if isinstance(a, Arr) for r in a.reduced)
+                    first = next((a for a in args[1:] if isinstance(a, Arr)), None)
+                    shp = self.ev(kw['shape'])
+                    # an axis that the announced shape drops from the first operand was reduced by the wrapped node
+                    dropped = tuple(l for l in (first.shape if first else []) if l not in shp)
+                    return Arr(shp, red + dropped, src(kw['dtype']) if 'dtype' in kw and src(kw['dtype']) in ('bool', 'int', 'float', 'complex') else (first.dtype if first else 'float'))
+                raise Unsupported('_Wrapper without an explicit shape')
+            if f == 'insertaxis' and len(args) == 3:
+                a = args[0]; k = self.norm(args[1], a.ndim + 1)
+                return Arr(a.shape[:k] + [args[2] if isinstance(args[2], str) else str(args[2])] + a.shape[k:], a.reduced, a.dtype)
+            if f == 'kronecker' and len(args) == 4:
+                a = args[0]; k = self.norm(args[1], a.ndim + 1)
+                return Arr(a.shape[:k] + [args[2] if isinstance(args[2], str) else f'#{args[2]}'] + a.shape[k:], a.reduced, a.dtype)
+            if f in ('util.sum', 'util.product') and len(args) == 1:
+                items = list(args[0])
+                out = items[0]
+                for it in items[1:]:
+                    out = broadcast(out, it)
+                return out
+            if f == 'typecast_arrays' or f == 'broadcast_arrays':
+                return list(args)
+            if f in self.impls:
+                kwargs = {k.arg: self.ev(k.value) for k in e.keywords}
+                return self.sub(self.impls[f], args, kwargs)
             if f == 'ValueError':
                 return 'ValueError'
             raise Unsupported(f'call `{src(e)[:50]}`')
         if isinstance(e, ast.JoinedStr):
             return 'text'
+        if isinstance(e, (ast.GeneratorExp, ast.ListComp)) and len(e.generators) == 1:
+            g = e.generators[0]
+            out = []
+            saved = dict(self.env)
+            for item in self.ev(g.iter):
+                self.bind(g.target, item)
+                if all(self.ev(c) for c in g.ifs):
+                    out.append(self.ev(e.elt))
+            self.env = saved
+            return out
+        if isinstance(e, ast.Compare) and len(e.ops) == 1 and isinstance(e.ops[0], (ast.In, ast.NotIn, ast.Is, ast.IsNot)):
+            a, b = self.ev(e.left), self.ev(e.comparators[0])
+            r = {ast.In: lambda: a in b, ast.NotIn: lambda: a not in b, ast.Is: lambda: a is b, ast.IsNot: lambda: a is not b}[type(e.ops[0])]()
+            return r
         raise Unsupported(f'expression `{src(e)[:50]}`')
 
     def run(self, stmts):
         for s in stmts:
-            if isinstance(s, ast.Assign) and len(s.targets) == 1 and isinstance(s.targets[0], ast.Name):
-                self.env[s.targets[0].id] = self.ev(s.value)
+            if isinstance(s, ast.Assign) and len(s.targets) == 1:
+                self.bind(s.targets[0], self.ev(s.value))
+            elif isinstance(s, ast.For) and not s.orelse:
+                for item in list(self.ev(s.iter)):
+                    self.bind(s.target, item)
+                    self.run(s.body)
+            elif isinstance(s, ast.Expr) and isinstance(s.value, ast.Call):
+                self.ev(s.value)
             elif isinstance(s, ast.If):
                 self.run(s.body if self.ev(s.test) else s.orelse)
             elif isinstance(s, ast.Return):
@@ -213,6 +341,21 @@ class ShapeExec:
                 continue
             else:
                 raise Unsupported(f'statement `{src(s)[:50]}`')
+
+    def bind(self, target, value):
+        if isinstance(target, ast.Name):
+            self.env[target.id] = value
+        elif isinstance(target, (ast.Tuple, ast.List)) and not any(isinstance(t, ast.Starred) for t in target.elts):
+            vals = list(value)
+            if len(vals) != len(target.elts):
+                raise Unsupported('unpacking length mismatch')
+            for t, v in zip(target.elts, vals):
+                self.bind(t, v)
+        elif isinstance(target, ast.Subscript) and isinstance(self.ev(target.value), list):
+            lst = self.ev(target.value)
+            lst[self.ev(target.slice)] = value
+        else:
+            raise Unsupported(f'assignment target `{src(target)}`')
 
     def call(self, fn):
         try:
